@@ -234,6 +234,8 @@ class ApiNamespace:
                 return
             elif alias.namespace != self:
                 return
+            # Marked first: an alias may refer to itself through a list or map.
+            seen_aliases.add(alias)
             # Aliases referenced directly or through lists, maps and
             # nullables come first.
             referenced = [alias.data_type]
@@ -247,7 +249,6 @@ class ApiNamespace:
                     referenced.append(data_type.value_data_type)
                     referenced.append(data_type.key_data_type)
             linearized_aliases.append(alias)
-            seen_aliases.add(alias)
 
         for alias in self.aliases:
             add_alias(alias)
